@@ -106,7 +106,7 @@ func GenProgram(t *rapid.T, o GenOpt) *Gen {
 	var head []Line
 	// flags
 	if o.Flags {
-		switch rapid.IntRange(0, 9).Draw(t, "flags") {
+		switch (rapid.IntRange(0, 11).Draw(t, "flags") * 5) % 12 {
 		case 0, 1:
 			head = append(head, Line{K: KFlags, T: "i"})
 		case 2:
@@ -129,15 +129,19 @@ func GenProgram(t *rapid.T, o GenOpt) *Gen {
 	// definitions
 	var defLines []Line
 	if o.Defs && rapid.IntRange(0, 2).Draw(t, "defs?") == 0 {
-		n := rapid.IntRange(1, 4).Draw(t, "ndefs")
+		n := rapid.IntRange(1, 6).Draw(t, "ndefs")
 		for i := 0; i < n; i++ {
 			name := fmt.Sprintf("d%d", i)
 			if rapid.IntRange(0, 4).Draw(t, "dname") == 0 {
 				name = rapid.SampledFrom([]string{"a-b", "X_1", "n", "def"}).Draw(t, "dn") + fmt.Sprint(i)
 			}
 			val := s.defValue()
-			if i > 0 && rapid.IntRange(0, 2).Draw(t, "nest?") == 0 {
-				ref := s.defs[rapid.IntRange(0, i-1).Draw(t, "ref")]
+			if i > 0 && rapid.IntRange(0, 2).Draw(t, "nest?") != 2 {
+				// mostly the previous definition: chains of depth 3 and more are common
+				ref := s.defs[i-1]
+				if rapid.IntRange(0, 3).Draw(t, "refprev") == 3 {
+					ref = s.defs[rapid.IntRange(0, i-1).Draw(t, "ref")]
+				}
 				val = val + "{{" + ref + "}}"
 				if rapid.Bool().Draw(t, "after") {
 					val += s.defValue()
@@ -397,7 +401,8 @@ func (s *genState) body(depth int, inCmd bool) []Line {
 		out = append(out, l)
 	}
 	for i := 0; i < n; i++ {
-		k := rapid.IntRange(0, 99).Draw(t, "item")
+		// rapid favours small integers: scramble so that every item kind gets its share
+		k := (rapid.IntRange(0, 99).Draw(t, "item") * 37) % 100
 		switch {
 		case k < 45:
 			e := s.entry(false)
@@ -429,14 +434,14 @@ func (s *genState) body(depth int, inCmd bool) []Line {
 			s.stored = append(s.stored, name)
 			s.label("store")
 			sinceFlush, loneAltPending = 0, false
-		case k < 73 && s.o.StoreLoad && len(s.stored) > 0:
+		case k < 76 && s.o.StoreLoad && len(s.stored) > 0:
 			if s.o.NoLoneAlt && loneAltPending && sinceFlush == 1 {
 				add(Line{K: KEntry, T: s.entry(true)})
 			}
 			add(Line{K: KLoad, Name: rapid.SampledFrom(s.stored).Draw(t, "load")})
 			s.label("load")
 			sinceFlush, loneAltPending = 0, false
-		case k < 83 && depth < s.o.MaxDepth:
+		case k < 85 && depth < s.o.MaxDepth:
 			add(Line{K: KAStart})
 			out = append(out, s.body(depth+1, false)...)
 			add(Line{K: KEnd})
